@@ -338,6 +338,16 @@ impl World {
         if room {
             ops.push(Op::n0(K::Garbage));
         }
+        if sc.holding && room {
+            for c in &nodes {
+                for p in &nodes {
+                    ops.push(Op::n3(K::NewChildHolding, *p, 0, *c));
+                }
+                for r in 0..sc.r {
+                    ops.push(Op::n2(K::NewRootHolding, r, *c));
+                }
+            }
+        }
         if sc.barrier {
             for p in &nodes {
                 let so = &self.sh.objs[*p as usize];
@@ -862,6 +872,122 @@ impl World {
         self.sync_logs()?;
         Ok(())
     }
+
+    /// C11: a failing constructor / root mapping releases everything. variant 0: map_root callback
+    /// panics; 1: try_map_root callback panics; 2: try_map_root returns Err; 3: Arena::new callback
+    /// panics; 4: Arena::try_new returns Err; 5: Arena::try_new callback panics (3-5 on a fresh arena).
+    pub fn probe_c11(mut self, variant: u8) -> VResult {
+        let base = self.base;
+        if variant >= 3 {
+            // a fresh arena whose constructor allocates two values and then fails
+            let metrics_out: std::cell::RefCell<Option<gc_arena::metrics::Metrics>> = std::cell::RefCell::new(None);
+            let d0 = drops_len();
+            let r = guarded("failing Arena constructor", || {
+                let body = |mc: &gc_arena::Mutation<'_>| {
+                    *metrics_out.borrow_mut() = Some(mc.metrics().clone());
+                    for k in 0..2u32 {
+                        let g = talloc::subject(|| gc_arena::Gc::new(mc, Leaf { id: 9100 + k, pat: pattern(9100 + k), n: 0, _tok: Tok(base + 124 + k % 2) }));
+                        talloc::register_gc(gc_arena::Gc::as_ptr(g) as usize, base + 122 + k);
+                    }
+                };
+                match variant {
+                    3 => {
+                        let _a: A = talloc::subject(|| {
+                            gc_arena::Arena::new(|mc| {
+                                body(mc);
+                                injected_panic()
+                            })
+                        });
+                    }
+                    4 => {
+                        let r: Result<A, ()> = talloc::subject(|| {
+                            gc_arena::Arena::try_new(|mc| {
+                                body(mc);
+                                Err(())
+                            })
+                        });
+                        assert!(r.is_err());
+                    }
+                    _ => {
+                        let _r: Result<A, ()> = talloc::subject(|| {
+                            gc_arena::Arena::try_new(|mc| {
+                                body(mc);
+                                injected_panic()
+                            })
+                        });
+                    }
+                }
+            })?;
+            let expect_panic = variant != 4;
+            if matches!(r, Caught::Injected) != expect_panic {
+                viol!("c11.swallowed", "failing constructor (variant {variant}): panic propagated = {}", matches!(r, Caught::Injected));
+            }
+            if drops_len() - d0 != 2 {
+                viol!("c11.failed_constructor", "a failed Arena constructor destructed {} of the 2 values it had allocated", drops_len() - d0);
+            }
+            if talloc::gc_live_count_range(base + 122, base + 124) != 0 {
+                viol!("c11.failed_constructor", "a failed Arena constructor did not release the allocations it had made");
+            }
+            let m = metrics_out.borrow_mut().take();
+            if let Some(m) = m {
+                if m.total_gc_count() != 0 {
+                    viol!("c11.failed_constructor", "total_gc_count() = {} after a failed Arena constructor", m.total_gc_count());
+                }
+            }
+            self.drops_seen = drops_len();
+            return self.finish();
+        }
+        let metrics = self.metrics.clone();
+        let id = self.alloc_id(KNODE);
+        let arena = self.arena.take().expect("arena");
+        let cell = std::cell::Cell::new(0usize);
+        let r = guarded("failing map_root / try_map_root", || match variant {
+            0 => {
+                let _a = arena.map_root::<RootT>(|mc, mut root| {
+                    let g = gc_arena::Gc::new(mc, Node { id: base + id as u32, pat: pattern(base + id as u32), _tok: Tok(base + id as u32), s: [gc_arena::Lock::new(None), gc_arena::Lock::new(None)], w: gc_arena::Lock::new(None), dw: Box::new(WSlot(gc_arena::Lock::new(None))), leaf: gc_arena::Lock::new(None), wl: gc_arena::Lock::new(None), cell: gc_arena::Lock::new(None) });
+                    cell.set(gc_arena::Gc::as_ptr(g) as usize);
+                    talloc::register_gc(cell.get(), base + id as u32);
+                    root.r[0] = Some(g);
+                    if true {
+                        injected_panic();
+                    }
+                    root
+                });
+            }
+            _ => {
+                let r = arena.try_map_root::<RootT, ()>(|mc, mut root| {
+                    let g = gc_arena::Gc::new(mc, Node { id: base + id as u32, pat: pattern(base + id as u32), _tok: Tok(base + id as u32), s: [gc_arena::Lock::new(None), gc_arena::Lock::new(None)], w: gc_arena::Lock::new(None), dw: Box::new(WSlot(gc_arena::Lock::new(None))), leaf: gc_arena::Lock::new(None), wl: gc_arena::Lock::new(None), cell: gc_arena::Lock::new(None) });
+                    cell.set(gc_arena::Gc::as_ptr(g) as usize);
+                    talloc::register_gc(cell.get(), base + id as u32);
+                    root.r[0] = Some(g);
+                    if variant == 1 {
+                        injected_panic();
+                    }
+                    Err(())
+                });
+                assert!(r.is_err());
+            }
+        })?;
+        if matches!(r, Caught::Injected) != (variant != 2) {
+            viol!("c11.swallowed", "failing root mapping (variant {variant}): panic propagated = {}", matches!(r, Caught::Injected));
+        }
+        self.addrs.push((cell.get(), id));
+        self.sync_logs()?;
+        for (i, o) in self.sh.objs.iter().enumerate() {
+            if !o.dropped || !o.freed {
+                viol!("c11.failed_map_root", "after a failed map_root / try_map_root (variant {variant}) object {i} is destructed={} released={}", o.dropped, o.freed);
+            }
+        }
+        if metrics.total_gc_count() != 0 {
+            viol!("c11.failed_map_root", "total_gc_count() = {} after a failed map_root / try_map_root", metrics.total_gc_count());
+        }
+        if talloc::gc_live_count_range(base, base + 128) != 0 {
+            viol!("c11.failed_map_root", "a Gc block is still allocated after a failed map_root / try_map_root");
+        }
+        drop(metrics);
+        self.finish()
+    }
+    pub const C11_PROBES: u8 = 6;
 
     /// End of an execution: drop everything the world holds.
     pub fn finish(mut self) -> VResult {
